@@ -127,6 +127,22 @@ def run(ctx):
         b = P.get(pub)
         wid = P.get(worker).id
         C.check(any(callee_of(t) == wid for pos, t in b.iter_calls()), 'C06-MUST-rewrite', '%s|delegates-to|%s' % (pub, worker), '%s no longer delegates to %s' % (pub, worker))
+    # the rewritten text is "new prefix + remainder after the old prefix": it derives from the strip_prefix result, and no
+    # substring replacement is used (str::replace substitutes EVERY occurrence of the old path text, e.g. /Ecu/EcuA -> /New/NewA)
+    C.rule('C06-MUST-splice', 'in set_item_name, move_element_local and move_element_full the new reference text is spliced from the new prefix and the remainder returned by strip_prefix(old prefix); str::replace / replacen are not used on paths')
+    from c07 import all_sources
+    for fn in ('ElementRaw::set_item_name', 'ElementRaw::move_element_local', 'ElementRaw::move_element_full'):
+        b = P.get(fn)
+        bad = [pos for x in P.with_closures(b) for pos, t in x.iter_calls() if call_matches(t, r'str>::(replace|replacen)$|String::replace_range$')]
+        C.check(not bad, 'C06-MUST-splice', fn + '|no-substring-replacement', '%s rewrites a path with str::replace: every occurrence of the old path text inside the reference is substituted, not only the leading prefix' % fn, b.where(bad[0]) if bad else '')
+        fm = [pos for pos, t in b.iter_calls() if call_matches(t, r'fmt::format$|alloc::fmt::format$')]
+        okf = False
+        for pos in fm:
+            nm, cs, _ = all_sources(b, b.blocks[pos[0]]['term']['args'][0], depth=20)
+            if any(c.endswith('strip_prefix') for c in cs):
+                okf = True
+        C.check(okf, 'C06-MUST-splice', fn + '|text-built-from-stripped-remainder', '%s does not build the new reference text from the remainder returned by strip_prefix(old prefix)' % fn, '%s:%d' % (b.file, b.line),
+                sample={'fn': fn, 'text': 'format!("{new_prefix}{remainder}")'})
     return C.finish('Ordered maintenance obligations on the rename and the two move paths, each a dominance / all-Ok-paths query on MIR. '
                     'Does not decide that each reference resolves to the same object afterwards (needs the run-time maps).')
 
